@@ -121,6 +121,10 @@ Definition rorb (a : res) (b : unit -> res) : res :=
 
 (* ComparableTo(varg, targ): same_under = (getUnderlying V == getUnderlying T) as Go interface
    values; ta_vt / ta_tv = types.AssignableTo in the two directions (after getElemTypeIf) *)
+(* types.Comparable on the classes of the universe: slices, maps and functions are not comparable *)
+Definition comparable_cls (t : tyc) : bool :=
+  match t with TO OSlice _ | TO OMap _ | TO OFunc _ => false | _ => true end.
+
 Definition comparableTo (V T : tyc) (cv ct : option cval) (same_under ta_vt ta_tv : bool) : res :=
   match is_untyped_basic V with
   | Some vk => untypedComparable vk cv T
@@ -128,7 +132,8 @@ Definition comparableTo (V T : tyc) (cv ct : option cval) (same_under ta_vt ta_t
     match is_untyped_basic T with
     | Some tk => untypedComparable tk ct V
     | None =>
-      if same_under then Ok true
+      if negb (comparable_cls V && comparable_cls T) then Ok false
+      else if same_under then Ok true
       else rorb (assignableConv V T cv ta_vt) (fun _ => assignableConv T V ct ta_tv)
     end
   end.
